@@ -85,6 +85,17 @@ def _run_history(hist):
                     break
                 asked = {"birth": (float(d[:, 0].min()), float(d[:, 0].max())),
                          "pers": (float((d[:, 1] - d[:, 0]).min()), float((d[:, 1] - d[:, 0]).max()))}
+            elif op == "fit_transform":
+                d = np.array(h[1], dtype=float)
+                sk = bool(h[2])
+                arg = d if sk else np.column_stack([d[:, 0], d[:, 1] - d[:, 0]])      # skew=False: already (birth, persistence)
+                try:
+                    pi.fit_transform(arg, skew=sk)
+                except Exception as ex:
+                    out.append((step, op + ":exception", "fit_transform raised %r" % (ex,)))
+                    break
+                asked = {"birth": (float(d[:, 0].min()), float(d[:, 0].max())),
+                         "pers": (float((d[:, 1] - d[:, 0]).min()), float((d[:, 1] - d[:, 0]).max()))}
             elif op == "fit_many":
                 ds = [np.array(x, dtype=float) for x in h[1]]
                 try:
@@ -114,7 +125,23 @@ def _rand_history(rng):
         return (lo, lo + ext)
     hist = [("init", rng_range(), rng_range(), rng.choice(nice + [rng.uniform(0.01, 1.5)]))]
     for _ in range(rng.randint(0, 4)):
-        op = rng.choice(["birth_range", "pers_range", "pixel_size", "fit", "fit_many"])
+        op = rng.choice(["birth_range", "pers_range", "pixel_size", "fit", "fit_many", "fit_transform", "near_multiple"])
+        if op == "near_multiple":
+            # an extent that is a whole number of pixels up to a relative 1e-7 .. 1e-13 (either side): the count must still cover it
+            ps_now = [h for h in hist if h[0] in ("init", "pixel_size")][-1]
+            ps_now = ps_now[3] if ps_now[0] == "init" else ps_now[1]
+            lo = rng.choice([0.0, -1.0, 0.25])
+            ext = rng.randint(1, 6) * ps_now * (1 + rng.choice([1, -1]) * rng.choice([3e-7, 1e-9, 1e-12, 2e-14]))
+            hist.append((rng.choice(["birth_range", "pers_range"]), (lo, lo + ext)))
+            continue
+        if op == "fit_transform":
+            pts = []
+            for _i in range(rng.randint(2, 5)):
+                b = rng.uniform(-3, 3)
+                pts.append([b, b + rng.uniform(0.1, 4)])
+            if len({p[0] for p in pts}) > 1:
+                hist.append((op, pts, rng.random() < 0.5))
+            continue
         if op == "pixel_size":
             hist.append((op, rng.choice(nice + [rng.uniform(0.01, 1.5)])))
         elif op == "fit":
